@@ -170,8 +170,16 @@ static const unsigned char ABYTE[] = {'A', 'c', 'X', 'U', 'J', '1', '*', ' ', '\
 #define NASTR (NABYTE + NABYTE * NABYTE)
 static uint64_t secE(void) { return (uint64_t)NASTR * NASTR + (uint64_t)NABYTE * NABYTE * NABYTE; }
 
-uint64_t vh_total(int tier) { return secA(tier) + secB(tier) + secE(); }
+/* ---- section F: length sweep: the work buffers of a merge (DP rows, path) are sized from the two lengths and grow in steps
+   (256, 384, 576, 864, 1296, ...): every total length T in 60..1400 as a pair (T/2, T - T/2) and as a pair (T/3, T - T/3), and as
+   a triple whose last merge joins a sequence of T - 70 residues to a 70-column group; array entry point, ASan ---- */
+#define FT_LO 60
+#define FT_HI 1400
+static uint64_t secF(void) { return (uint64_t)(FT_HI - FT_LO + 1) * 3; }
+
+uint64_t vh_total(int tier) { return secA(tier) + secB(tier) + secE() + secF(); }
 static int array_decode(uint64_t e, struct kx_set* in, char* desc, size_t dn);
+static int sweep_case(uint64_t f, int* success, char* desc, size_t dn);
 
 static char* BUF;
 static size_t BUFN;
@@ -424,6 +432,11 @@ void vh_describe(uint64_t id, int tier, char* buf, size_t n)
 {
         char d[200];
         size_t o, i;
+        if(id >= secA(tier) + secB(tier) + secE()){
+                int ok;
+                sweep_case(id - secA(tier) - secB(tier) - secE(), &ok, buf, n);
+                return;
+        }
         if(id >= secA(tier) + secB(tier)){
                 struct kx_set in;
                 array_decode(id - secA(tier) - secB(tier), &in, buf, n);
@@ -502,6 +515,58 @@ static int array_decode(uint64_t e, struct kx_set* in, char* desc, size_t dn)
         return hasgap;
 }
 
+static int sweep_case(uint64_t f, int* success, char* desc, size_t dn)
+{
+        int T = FT_LO + (int)(f / 3), kind = (int)(f % 3), i, rc, alnlen = 0;
+        struct kx_set in;
+        static char a[1500], b[1500], c[80];
+        char** rows = NULL;
+        char why[300];
+        int la = kind == 0 ? T / 2 : (kind == 1 ? T / 3 : 70), lb = kind == 2 ? T - 70 : T - la;
+        *success = 0;
+        if(lb < 1){
+                lb = 1;
+        }
+        for(i = 0; i < la; i++){
+                a[i] = "ACGT"[(i * 7 + i / 5) % 4];
+        }
+        a[la] = 0;
+        for(i = 0; i < lb; i++){
+                b[i] = "ACGT"[(i * 7 + i / 5 + (i % 89 == 3)) % 4];
+        }
+        b[lb] = 0;
+        kx_set_init(&in);
+        kx_set_add(&in, a, "SEQ1");
+        if(kind == 2){
+                /* a second 70-residue sequence: the group the long one is merged with */
+                memcpy(c, a, 70);
+                c[70] = 0;
+                c[33] = c[33] == 'A' ? 'C' : 'A';
+                kx_set_add(&in, c, "SEQ2");
+        }
+        kx_set_add(&in, b, kind == 2 ? "SEQ3" : "SEQ2");
+        if(desc){
+                snprintf(desc, dn, "F: length sweep: %s of total length %d (%d + %d residues)", kind == 2 ? "70-column pair joined by a third sequence" : "pair", T, la, lb);
+                kx_set_free(&in);
+                return VH_OK;
+        }
+        vh_count("library_calls");
+        rc = kx_kalign_arr(&in, 1, KALIGN_TYPE_DNA, -1.0f, -1.0f, -1.0f, &rows, &alnlen);
+        if(rc != OK){
+                vh_fail("sem:rejected-valid-input", "kalign() failed on %d nucleotide sequences", in.n);
+        }else{
+                if(kx_check_alignment(&in, in.n, rows, NULL, alnlen, why, sizeof why)){
+                        char sig[64];
+                        snprintf(sig, sizeof sig, "sem:invalid-alignment.%.*s", (int)(strchr(why, ':') - why), why);
+                        vh_fail(sig, "kalign() returned OK but the rows are not an alignment of the input: %s", why);
+                }
+                kx_free_rows(rows, in.n);
+                *success = 1;
+        }
+        kx_set_free(&in);
+        return VH_OK;
+}
+
 static int array_case(uint64_t e, int* success)
 {
         struct kx_set in;
@@ -535,6 +600,9 @@ static int pipeline(uint64_t id, int tier, int* success)
         struct msa* m = NULL;
         int rc;
         *success = 0;
+        if(id >= secA(tier) + secB(tier) + secE()){
+                return sweep_case(id - secA(tier) - secB(tier) - secE(), success, NULL, 0);
+        }
         if(id >= secA(tier) + secB(tier)){
                 return array_case(id - secA(tier) - secB(tier), success);
         }
